@@ -181,6 +181,11 @@ impl FileIndexStub {
     pub fn file_size(&self) -> (r: u64) { unimplemented!() }
     #[verifier::external_body]
     pub fn read_meta(&self) -> (r: Result<BytesMut, VErr>) ensures r.is_ok() ==> r->Ok_0@ == self.meta_bytes() { unimplemented!() }
+    // one byte of the meta block
+    #[verifier::external_body]
+    pub fn read_meta_at(&self, i: u64) -> (r: Result<u8, VErr>)
+        ensures r.is_ok() ==> i < self.meta_bytes().len() && r->Ok_0 == self.meta_bytes()[i as int]
+    { unimplemented!() }
     #[verifier::external_body]
     pub fn clone(&self) -> (r: FileIndexStub) ensures r == *self { unimplemented!() }
 }
